@@ -13,4 +13,22 @@ CHECKS = {
   "note": "Trusts serde_json for JSON syntax and chrono-tz for zone rules. A grid meta tag named 'ver' is excluded (reserved by the Hayson grid encoding).",
   "ref": "DESIGN.md section 3 C02",
  },
+ "C10": {
+  "technique": "property-based testing (proptest): any constructible value, deep spines and decoder images through every encoder under catch_unwind",
+  "level": "Generated-input search over ill-formed and well-formed values (depth to 64), the image of each decoder offered to the other encoder, and foreign Hayson documents; oracle: no encoder / Display / dis call panics. Held on everything explored.",
+  "note": "Instants within 14 h of chrono's limits are excluded from generation (open known finding F12b, replayed on every run).",
+  "ref": "DESIGN.md section 3 C10",
+ },
+ "C12": {
+  "technique": "property-based testing of algebraic laws (proptest) over near-collision triples, plus differential check of HashSet/BTreeSet/sort+dedup against a quadratic ==-class count",
+  "level": "Generated-input search: triples with deliberate near-collisions; all stated laws of ==, Hash, Ord, PartialOrd checked on Value and on each typed value. Held on everything explored.",
+  "note": "NaN excluded as the property states. std sort()/collect (PartialOrd::lt based) are only asserted when all Numbers in the triple share one unit (open known finding F13d).",
+  "ref": "DESIGN.md section 3 C12",
+ },
+ "C19": {
+  "technique": "exhaustive enumeration (18 kinds x 256 codes x names) plus property-based testing (proptest) of predicates, typed conversions, dict getters and grid construction against the RVal model",
+  "level": "The finite kind/code/name space is enumerated completely; values, dicts and record lists are generated. Held on everything explored.",
+  "note": "Model of make_from_dicts: rows unchanged in order; columns = sorted distinct union of keys, no column meta.",
+  "ref": "DESIGN.md section 3 C19",
+ },
 }
